@@ -244,6 +244,13 @@ func (e *envelope) Sign(req *signature.SignRequest) ([]byte, error) {
 	msg.Headers.Protected[cose.HeaderLabelContentType] = req.Payload.ContentType
 	msg.Payload = req.Payload.Content
 
+	// the protected header must be readable again: CBOR can carry values that
+	// go-cose refuses to decode (e.g. an unsigned integer above the int64
+	// range, at any depth), and an envelope holding one would not parse
+	if err := validateProtectedHeadersReadable(msg.Headers.Protected); err != nil {
+		return nil, &signature.InvalidSignRequestError{Msg: err.Error()}
+	}
+
 	// core sign process, generate signature of COSE envelope
 	if err := msg.Sign(rand.Reader, nil, signer); err != nil {
 		return nil, &signature.InvalidSignRequestError{Msg: err.Error()}
@@ -278,6 +285,20 @@ func (e *envelope) Sign(req *signature.SignRequest) ([]byte, error) {
 	e.base = msg
 
 	return encoded, nil
+}
+
+// validateProtectedHeadersReadable encodes the protected header and decodes it
+// the way a verifier does.
+func validateProtectedHeadersReadable(protected cose.ProtectedHeader) error {
+	encoded, err := protected.MarshalCBOR()
+	if err != nil {
+		return err
+	}
+	var decoded cose.ProtectedHeader
+	if err := decoded.UnmarshalCBOR(encoded); err != nil {
+		return fmt.Errorf("protected header cannot be decoded after encoding: %w", err)
+	}
+	return nil
 }
 
 // Verify implements signature.Envelope interface.
